@@ -37,6 +37,7 @@ type pktReq struct {
 	Flush bool   `json:"flush"`
 	Seed  int64  `json:"seed"`
 	API   int    `json:"api"`
+	Raw   int    `json:"raw,omitempty"`
 }
 
 type corrReq struct {
@@ -114,6 +115,7 @@ type specPk struct {
 	Len   int    `json:"len"`
 	Flush bool   `json:"flush"`
 	Err   string `json:"err"`
+	Pad   int    `json:"pad"`
 }
 
 type specSent struct {
@@ -373,6 +375,10 @@ func buildReq(e *specEmit, rnd *rand.Rand) runReq {
 	q.WBuf = bufSizes[rnd.Intn(len(bufSizes))]
 	q.Unlock = rnd.Intn(4) == 0
 	for _, p := range e.Pk {
+		if p.Pad > 0 {
+			q.Pkts = append(q.Pkts, pktReq{Raw: p.Pad, Flush: true})
+			continue
+		}
 		pr := pktReq{Tp: tpOf(p.Tp), Len: p.Len, Flush: p.Flush, Seed: rnd.Int63n(1 << 40), API: rnd.Intn(3)}
 		if pr.API == 1 && !p.Flush {
 			pr.API = 0
@@ -430,6 +436,9 @@ func expandClass(e *specEmit, rnd *rand.Rand, all bool) []corrReq {
 
 // compare checks one run of the real pair against the specified scenario; "" = conforms.
 func compare(e *specEmit, q *runReq, r *runRes) string {
+	if strings.HasPrefix(r.Fail, "panic:") || strings.HasPrefix(r.Fail, "deadlock") {
+		return "code under test: " + r.Fail // decided on state, not on time: a real failure of pkg/rpc
+	}
 	if r.Fail != "" {
 		return "harness: " + r.Fail
 	}
@@ -452,7 +461,7 @@ func compare(e *specEmit, q *runReq, r *runRes) string {
 		if w.Err != e.Pk[i].Err {
 			return fmt.Sprintf("write %d: error %q, specified %q", i+1, w.Err, e.Pk[i].Err)
 		}
-		if w.Err == "" {
+		if w.Err == "" && e.Pk[i].Pad == 0 {
 			wire = append(wire, &wirePkt{tp: q.Pkts[i].Tp, body: genBody(q.Pkts[i].Seed, q.Pkts[i].Len)})
 			hashes = append(hashes, w.Hash)
 		}
@@ -585,6 +594,10 @@ func logStr(ls []specLog) string {
 func scenarioKey(e *specEmit, corr *corrReq) string {
 	var pk []string
 	for _, p := range e.Pk {
+		if p.Pad > 0 {
+			pk = append(pk, fmt.Sprintf("pad%d", p.Pad))
+			continue
+		}
 		f := "n"
 		if p.Flush {
 			f = "f"
@@ -683,6 +696,7 @@ type mcCfg struct {
 	singleCuts string
 	corrEveryK []int
 	lenMasks   []int
+	padKs      []int
 	plans      []int
 	coverage   bool
 	all        bool // expand corruption classes to every offset
@@ -742,7 +756,7 @@ func runMC(c *core.Ctx, pl *pool, st *stats, m mcCfg, nworkers int) error {
 		Timeout: 14 * time.Minute, HeapMB: 2048,
 		OnEmit:  func(p json.RawMessage) { ch <- append(json.RawMessage(nil), p...) },
 		Consts: map[string]string{"MAXPKTS": fmt.Sprint(m.maxPkts), "SHAPES": setStr(m.shapes), "CRYPTOS": setStr(m.cryptos),
-			"EVERYK": setStr(m.everyK), "SINGLECUTS": m.singleCuts, "CORREVERYK": setStr(m.corrEveryK), "LENMASKS": setStr(m.lenMasks), "PLANS": plans}})
+			"EVERYK": setStr(m.everyK), "SINGLECUTS": m.singleCuts, "CORREVERYK": setStr(m.corrEveryK), "LENMASKS": setStr(m.lenMasks), "PADKS": setStr(m.padKs), "PLANS": plans}})
 	close(ch)
 	wg.Wait()
 	if err != nil {
@@ -783,6 +797,21 @@ func onePacketPlans(shapes, sub, cryptos []int) []int {
 			for _, cr := range cryptos {
 				out = append(out, (2*rank+f+1)*100+cr)
 			}
+		}
+	}
+	return out
+}
+
+// padPlans: raw padding words before, between and after packets of plain streams.
+func padPlans(shapes []int, ks, cryptos []int) []int {
+	item := func(shape int, flush int) int { return 2*sort.SearchInts(shapes, shape) + flush + 1 }
+	var out []int
+	for _, k := range ks {
+		for _, cr := range cryptos {
+			out = append(out,
+				(item(1003, 1)+70*(60+k)+4900*item(1000, 1))*100+cr, // packet, padding, packet
+				((60+k)+70*item(1016, 0))*100+cr,                    // padding first
+				(item(1001, 0)+70*(60+k))*100+cr)                    // unflushed packet, padding last
 		}
 	}
 	return out
@@ -853,17 +882,18 @@ func runC35(c *core.Ctx) error {
 	if !c.Thorough() {
 		plans := onePacketPlans(allShapes, []int{1000, 1003, 1016, 1040, 3008, 3012, 4008}, []int{0, 1, 11, 12})
 		plans = append(plans, samplePlans(rnd, allShapes, allCryptos, 6, 2, 3)...)
+		plans = append(plans, padPlans(allShapes, []int{3, 4}, []int{0, 1})...)
 		cfgs = append(cfgs, mcCfg{name: "1-packet-exhaustive+sampled-2..3", maxPkts: 3, shapes: allShapes, cryptos: allCryptos,
-			everyK: []int{1, 7, 16}, singleCuts: "class", corrEveryK: []int{0}, lenMasks: []int{1, 16}, plans: plans, coverage: true, workers: 4})
+			everyK: []int{1, 7, 16}, singleCuts: "class", corrEveryK: []int{0}, lenMasks: []int{1, 16}, padKs: []int{3, 4}, plans: plans, coverage: true, workers: 4})
 	} else {
 		cfgs = append(cfgs, mcCfg{name: "exhaustive-1", maxPkts: 1, shapes: allShapes, cryptos: allCryptos,
-			everyK: []int{1, 2, 3, 5, 7, 11, 13, 16, 17}, singleCuts: "all", corrEveryK: []int{0, 1, 16}, lenMasks: []int{1, 2, 8, 16, 64, 255},
+			everyK: []int{1, 2, 3, 5, 7, 11, 13, 16, 17}, singleCuts: "all", corrEveryK: []int{0, 1, 16}, lenMasks: []int{1, 2, 8, 16, 64, 255}, padKs: []int{1, 3, 4, 5},
 			coverage: true, all: true, workers: 6})
 		cfgs = append(cfgs, mcCfg{name: "exhaustive-2", maxPkts: 2, shapes: []int{1000, 1001, 1003, 1004, 1016, 1040, 3008, 3012, 4008}, cryptos: []int{0, 1, 11, 12},
-			everyK: []int{1, 7, 16}, singleCuts: "class", corrEveryK: []int{0}, lenMasks: []int{1, 16}, all: true, workers: 8})
+			everyK: []int{1, 7, 16}, singleCuts: "class", corrEveryK: []int{0}, lenMasks: []int{1, 16}, padKs: []int{3, 4}, all: true, workers: 8})
 		cfgs = append(cfgs, mcCfg{name: "sampled-3", maxPkts: 3, shapes: allShapes, cryptos: allCryptos,
 			everyK: []int{1, 3, 5, 16, 17}, singleCuts: "all", corrEveryK: []int{0, 1}, lenMasks: []int{1, 16, 255},
-			plans: samplePlans(rnd, allShapes, allCryptos, 120, 3, 3), all: true, workers: 8})
+			padKs: []int{1, 2, 3, 4, 5}, plans: append(samplePlans(rnd, allShapes, allCryptos, 120, 3, 3), padPlans(allShapes, []int{1, 2, 3, 4, 5}, []int{0, 1, 2})...), all: true, workers: 8})
 	}
 	for _, m := range cfgs {
 		if err := runMC(c, pl, st, m, nproc); err != nil {
@@ -887,7 +917,7 @@ func runC35(c *core.Ctx) error {
 	if c.NViolations() > 0 {
 		return nil
 	}
-	for _, k := range []string{"eof", "size", "seq", "crc", "align", "ueof", "pong", "pinglen"} {
+	for _, k := range []string{"eof", "size", "seq", "crc", "align", "ueof", "pong", "pinglen", "pad"} {
 		if st.byErr[k] == 0 {
 			return fmt.Errorf("vacuous: the real reader never produced outcome %q (%v)", k, st.byErr)
 		}
